@@ -17,7 +17,10 @@ EXPLANATION = (
     "modulo the root name), the compared values are order-free collections (sets), both state_predicates and state_fluents are "
     "read, and a finite valuation over (facts equal, fluents equal) shows the result is their conjunction. C14.copy: the effect "
     "analysis shows that State.copy returns fresh containers at both levels whose elements are fresh objects (no alias of the "
-    "original reachable down to the fact / fluent objects) and that is_init is propagated; constructor field maps show that "
+    "original reachable down to the fact / fluent objects) and that is_init is propagated; the values that reach the new State's "
+    "state_predicates / state_fluents are computed from the same-named field of the original (provenance of the constructor's field "
+    "sources: argument pairing); under the flags State.copy passes to the element copy (parameter defaults where it passes nothing) "
+    "GroundedPredicate.copy hands self.is_positive on unchanged; constructor field maps show that "
     "GroundedPredicate.copy / PDDLFunction.copy initialise every declared field from the same-named field of the original. "
     "C14.serialize: the serialisation depends on both fields and on is_init (backward slice), the text starts with ':init' exactly "
     "for an initial state (shape of the text under both valuations of is_init), and facts / fluents are written by the element "
@@ -217,6 +220,65 @@ def _copy_summary(repo: Repo, eff, f: FuncInfo):
     return s
 
 
+# (field of the copy, the other container field of a State): the copy's field must be computed from the same-named field of the original
+COPY_FIELD_PAIRS = (("state_predicates", "state_fluents"), ("state_fluents", "state_predicates"))
+
+
+def _check_polarity_as_called(repo: Repo, rid: str, r: RuleResult, f: FuncInfo, pf, m: FuncInfo, p, src: List[ast.AST]) -> None:
+    """State.copy copies a fact with `<fact>.copy(<flags>)`: under the truth values of the flags AS PASSED THERE (the default of a flag
+    that is not passed) the polarity handed to the constructor is self.is_positive itself"""
+    flags = [q for q in m.params if q != m.self_name]
+    calls = []
+    for c in L.calls_in(f.node):
+        if not (isinstance(c.func, ast.Attribute) and c.func.attr == "copy"):
+            continue
+        try:
+            tr = pf.trace(c.func.value)
+        except (KeyError, RecursionError):
+            continue
+        if tr and all(x[0] == "self" and "attr:state_predicates" in x and "elem" in x for x in tr):
+            calls.append(c)
+    if not calls or not flags:
+        return
+    raw = repo.func("GroundedPredicate.copy")
+
+    def atom(e):
+        if isinstance(e, ast.Name) and isinstance(e.ctx, ast.Load):
+            for q in flags:
+                if L.is_param(p, e, q):
+                    return "flag:" + q
+        return None
+    G = L.Guards(m, atom)
+    for c in calls:
+        if any(isinstance(a, ast.Starred) for a in c.args) or any(k.arg is None for k in c.keywords):
+            continue
+        r.site(f"{m.qn} [polarity as called by {f.qn}]")
+        valn: Dict[str, bool] = {}
+        shown: Dict[str, object] = {}
+        for i, q in enumerate(flags):
+            a = L.arg_of(c, raw, q, i)
+            if a is None:
+                a = raw.defaults.get(q)
+                shown[q] = "default " + (unparse(a) if a is not None else "<none>")
+            else:
+                shown[q] = unparse(a)
+            if isinstance(a, ast.Constant) and isinstance(a.value, (bool, int)) or (isinstance(a, ast.Constant) and a.value is None):
+                valn["flag:" + q] = bool(a.value)
+        if not valn:
+            r.ok(n=0)
+            continue
+        okc = True
+        for e in src:
+            v = G.value(valn, e)
+            kept = isinstance(v, ast.AST) and not isinstance(v, ast.UnaryOp) and p.trace(v, under=G.under(valn)) == {("self", "attr:is_positive")}
+            okc = okc and kept
+        if okc:
+            r.ok({"flags": shown, "polarity": "self.is_positive"})
+        else:
+            r.fail(Finding(rid, m, "polarity-as-called", f"{f.qn} copies a fact with {unparse(c, 40)} ({shown}): under these flags {m.qn} does not hand "
+                           f"self.is_positive on unchanged, so the copy of a state holds facts of the opposite polarity"))
+
+
 def rule_copy(repo: Repo, rid: str = "C14.copy") -> RuleResult:
     r = RuleResult(rid, "State.copy returns fresh containers with fresh element objects; element copies carry every declared field",
                    "a copy of a state is equal to the original and independent of it")
@@ -246,6 +308,34 @@ def rule_copy(repo: Repo, rid: str = "C14.copy") -> RuleResult:
                 r.ok({"field": fld, "fresh_levels": depth, "shared_with_original": []})
     # is_init propagated
     ctor = [c for c in L.calls_in(f.node) if isinstance(c.func, ast.Name) and c.func.id == "State"]
+    # field pairing: what the new State holds as facts is computed from the facts of the original (and from nothing of its fluents), the
+    # same for the fluents -- argument pairing at the constructor call, decided by provenance of the values that reach each field
+    pf = L.prov(repo, f)
+    for c in ctor:
+        srcs = F.constructed_field_sources(repo, f, c, "State")
+        for fld, other in COPY_FIELD_PAIRS:
+            exprs = srcs.get(fld, [])
+            if not exprs:
+                continue
+            r.site(f"{f.qn} [{fld} <- {fld}]")
+            origins: Set[str] = set()
+            undecided = False
+            for e in exprs:
+                try:
+                    tr = pf.trace(e)
+                except (KeyError, RecursionError):
+                    undecided = True
+                    continue
+                for x in tr:
+                    if x and x[0] == "self" and len(x) > 1 and x[1] in ("attr:state_predicates", "attr:state_fluents"):
+                        origins.add(x[1][5:])
+            if other in origins and fld not in origins and not undecided:
+                r.fail(Finding(rid, f, f"field-swapped:{fld}", f"the copy's {fld} is computed from the original's {other} (and nothing of its {fld}): "
+                               f"the arguments of {unparse(c, 60)} are paired with the wrong fields", node=c))
+            elif origins and fld not in origins and not undecided:
+                r.fail(Finding(rid, f, f"field-swapped:{fld}", f"the copy's {fld} is computed from {sorted(origins)} of the original, not from its {fld}", node=c))
+            else:
+                r.ok({"field": fld, "computed_from": sorted(origins) or "not traced"})
     r.site(f.qn + " [is_init]")
     okinit = False
     for c in ctor:
@@ -303,6 +393,10 @@ def rule_copy(repo: Repo, rid: str = "C14.copy") -> RuleResult:
         r.ok({"polarity_when_not_negated": "self.is_positive"})
     else:
         r.fail(Finding(rid, m, "polarity", "GroundedPredicate.copy() (is_negated=False) does not keep the polarity"))
+    # ... and that is the valuation State.copy asks for: the flags it passes to the element copy (the parameter defaults where it passes
+    # nothing) must select the polarity-keeping branch
+    if okpol and src:
+        _check_polarity_as_called(repo, rid, r, f, pf, m, p, src)
     r.require_sites(6)
     return r
 
